@@ -206,6 +206,11 @@ def run(E: Engine, rep: Report, tier: str) -> dict:
         # common end has to be one every channel can reach -- found by iterating `tf` to a fixed point of
         # max over channels of (end + adjust_duration(tf - end))
         body_ok = any(mentions(t, "adjust_duration") and any(u[0] == "call" and u[1] == ("name", "max") for u in sym.subterms(t)) for t in fix_terms)
+        # inside the iteration every channel end is the PLAIN end (where the delay is appended): a channel "has to move"
+        # iff the common end is after its plain end -- testing against the end with fall time skips the channel whose own
+        # pending fall time defines the common end, and its stretched delay then overshoots
+        fall_in_body = [u for t in fix_terms for u in sym.subterms(t[3] if t[0] == "loop" and len(t) == 4 else t) if u[0] == "call" and u[1][0] == "attr" and u[1][2] == "get_duration" and any(k == "include_fall_time" and v != ("const", False) for k, v in u[3])]
+        rep.check(not fall_in_body, "ALIGN", "Sequence.align|iteration-uses-plain-ends", "no get_duration(..., include_fall_time=<at_rest>) inside the fixed-point iteration", f"the iteration that pushes the common end compares it with `{sh(fall_in_body[0], 80) if fall_in_body else ''}` (the end WITH fall time): with at_rest=True the channel whose fall time defines the common end is never asked to move, its delay is then stretched past the common end and the channels do not end together", E.where(al, l.node))
         rep.check(bool(fix_terms) and body_ok, "ALIGN", "Sequence.align|common-end-reachable-by-every-channel", "the common end is iterated to max_i(end_i + adjust_duration(end - end_i))", "align adds `adjust_duration(tf - end)` to each channel with tf fixed beforehand: a channel whose minimum duration or clock period stretches its delay ends later than the others (200 ns on rydberg_global and 204 ns on raman_local of DigitalAnalogDevice end at 216 and 204), so the aligned channels do not end together", E.where(al, l.node))
     rep.floor("ALIGN", 3)
     # estimate_added_delay predicts what the same add inserts: it goes through the same make_next_pulse_slot, with the same
